@@ -1,6 +1,6 @@
 //! C11 Factorisations reconstruct the input and have the promised structure.
 use crate::rt::{fabs, inp};
-use crate::{harness, vassert, vassume, vclose, vle, vmustpanic};
+use crate::{harness, vassert, vassume, vbits, vclose, vle, vmustpanic};
 use compute::linalg::*;
 
 fn amax(v: &[f64]) -> f64 {
@@ -182,6 +182,29 @@ pub fn lu_h<const N: usize>(case: u8) {
         i += 1;
     }
 }
+// @bound c11_lutwin_: order N (instance, 2..4), every bit pattern of A (floating-point operations and comparisons opaque, U): no pivot case split is needed because both implementations must take the same decisions on the same values
+// @claim c11_lutwin_: Matrix::lu and the slice function lu perform the same operations: their packed factors are bit-identical and their pivot vectors equal for every input (U). Together with c11_lu_ (P A = L U for the slice function) this carries the factorisation obligations over to the Matrix method at every order where the twin is decided
+// @modes c11_lutwin_: U
+// @cap c11_lutwin_: 120
+fn lutwin<const N: usize>() {
+    let a = inp::vec(0, N * N);
+    let (f, p) = lu(&a);
+    let (fm, pm) = Matrix::new(a.clone(), N as i32, N as i32).lu();
+    vassert!(f.len() == N * N && fm.data.len() == N * N && p.len() == N && pm.len() == N, "lu output sizes");
+    let mut i = 0;
+    while i < N * N {
+        vbits!(fm.data[i], f[i], "Matrix::lu entry {} differs from lu", i);
+        i += 1;
+    }
+    let mut i = 0;
+    while i < N {
+        vassert!(pm[i] == p[i], "Matrix::lu pivot {}: {} vs {}", i, pm[i], p[i]);
+        i += 1;
+    }
+}
+harness!(name=c11_lutwin_2, prop=C11, mode=U, kind=normal, tier=quick, unwind=20, { lutwin::<2>() });
+harness!(name=c11_lutwin_3, prop=C11, mode=U, kind=normal, tier=thorough, unwind=20, { lutwin::<3>() });
+harness!(name=c11_lutwin_4, prop=C11, mode=U, kind=normal, tier=thorough, unwind=20, { lutwin::<4>() });
 // @cap c11_lu_: 120
 // @cap c11_det_: 150
 harness!(name=c11_lu_1, prop=C11, mode=R, kind=normal, tier=quick, unwind=20, { lu_h::<1>(0) });
